@@ -21,7 +21,7 @@ Task:
 1. Read the relevant code and make a small source change under {wt}/streamflow/ (not tests) that BREAKS the property, while the code still imports/compiles and the project's existing stable test-suite still passes. The change must look like a plausible mistake or 'optimisation' a developer could make (e.g. an off-by-one in cursor/offset logic, a wrong ordering key, state hoisted to a shared scope, a notify/release placed on the wrong side of an await, a missing cache invalidation, a check-then-act across an await).
 2. It must NOT be something ordinary use exposes at once. It should need something specific to manifest: a particular task interleaving or completion order, a fault at a particular point, a multi-step operation sequence, an unusual input (e.g. 10+ elements, nested tags, names with spaces), or two cooperating sites that each look fine alone.
 3. Write a demonstration: a standalone pytest file or small script {out}/demo_test.py that FAILS with your change and PASSES on the unmodified code (check both. NEVER use `git stash` -- the stash is shared with other agents' worktrees. Toggle with: `git -C {wt} diff > {out}/patch.diff; git -C {wt} apply -R {out}/patch.diff; <run demo>; git -C {wt} apply {out}/patch.diff`). It should use only the project's public classes (fake connectors / in-memory sqlite `:memory:` database via streamflow.main.build_context are fine) and must not need docker/ssh/network. Run it like `cd {wt} && PYTHONPATH={wt} /venv/bin/python -m pytest -q -p no:cacheprovider {out}/demo_test.py`.
-4. Confirm the stable tests still pass WITH your change: `cd {wt} && PYTHONPATH={wt} /venv/bin/python -m pytest -q -p no:cacheprovider --timeout=900 tests/test_binding_filter.py tests/test_cwl_loop.py tests/test_recovery.py tests/test_recovery_utils.py tests/test_schema.py tests/test_scheduler.py::test_hardware tests/test_connector.py::test_command_template "tests/test_translator.py::test_recursive_deployments" tests/test_translator.py::test_workdir_inheritance tests/test_translator.py::test_dot_product_transformer_raises_error` (takes about 5 minutes; many OTHER tests in the repo fail offline regardless because they need docker etc. -- ignore those; in tests/test_recovery.py some parametrisations named test_resume_* fail even on unmodified code -- ignore those too). Other agents run tests concurrently on this machine: ALWAYS run every python/pytest command with the environment variable TMPDIR=/tmp/agent_tmp/{pid}-{n} (create that directory first) so temporary files do not collide, and never delete anything under /tmp that is not yours.
+4. Confirm the stable tests still pass WITH your change: `cd {wt} && PYTHONPATH={wt} /venv/bin/python -m pytest -q -p no:cacheprovider --timeout=900 tests/test_binding_filter.py tests/test_cwl_loop.py tests/test_recovery.py tests/test_recovery_utils.py tests/test_schema.py tests/test_scheduler.py::test_hardware tests/test_connector.py::test_command_template "tests/test_translator.py::test_recursive_deployments" tests/test_translator.py::test_workdir_inheritance tests/test_translator.py::test_dot_product_transformer_raises_error` (takes about 2-5 minutes; under heavy machine load this run occasionally hangs forever in tests/test_recovery.py regardless of your change -- ALWAYS prefix it with `timeout -s KILL 1500` and simply run it again if it gets killed; many OTHER tests in the repo fail offline regardless because they need docker etc. -- ignore those; in tests/test_recovery.py some parametrisations named test_resume_* fail even on unmodified code -- ignore those too). Other agents run tests concurrently on this machine: ALWAYS run every python/pytest command with the environment variable TMPDIR=/tmp/agent_tmp/{pid}-{n} (create that directory first) so temporary files do not collide, and never delete anything under /tmp that is not yours.
 5. Save into {out}/ : patch.diff (output of `git -C {wt} diff`), demo_test.py, and meta.json with keys: property ("{pid}"), summary (what was changed), needs (what specific schedule/fault/input/sequence is needed to manifest), demo_cmd, demo_fails_with_patch (true/false as observed), demo_passes_without_patch (true/false as observed), stable_tests_pass_with_patch (true/false as observed, with the pytest summary line).
 6. Leave the worktree WITH the change applied (do not commit). Do not create other files outside {wt} and {out}.
 
